@@ -68,6 +68,7 @@ def run(run, tier):
     xsim.run_others(run, 'C04', EoN, sim, tier, per, total, 'wf_traj')
     from . import esirx
     esirx.part(run, tier, 'C04', props, per)
+    from . import discx; discx.part(run, tier, 'C04', props, per)
     if not props['ok']:
         run.violation('C04/proof', 'Props/C04.v no longer checks: %s' % props['log'][-400:], {'broken': 'coq/Props/C04.v', 'log': props['log']}, no_input=True)
     C.proof_coverage(run, props, total.n, min(len(total.distinct), total.nontrivial),
